@@ -192,6 +192,11 @@ func (r *standardRenderer) flush() {
 	r.mtx.Lock()
 	defer r.mtx.Unlock()
 
+	r.render()
+}
+
+// render does the work of flush. The caller holds the mutex.
+func (r *standardRenderer) render() {
 	if r.buf.Len() == 0 || r.buf.String() == r.lastRender {
 		// Nothing to do.
 		return
@@ -391,6 +396,14 @@ func (r *standardRenderer) enterAltScreen() {
 
 	if r.altScreenActive {
 		return
+	}
+
+	// Lines printed since the last frame belong above the view on the main
+	// screen, and the alt screen never shows them: bring the main screen up
+	// to date before leaving it, or a program that ends in the alt screen
+	// would lose them.
+	if len(r.queuedMessageLines) > 0 {
+		r.render()
 	}
 
 	r.altScreenActive = true
